@@ -32,6 +32,7 @@ def run(ctx):
     ctx.rule('C20.R5', 'read_message: resize(header.length) only under validate Ok', floor=1)
     ctx.rule('C20.R6', 'only slice-based bincode::deserialize (no deserialize_from / from_reader on untrusted streams)', floor=2)
     ctx.rule('C20.R8', 'codec types implement both Serialize and Deserialize', floor=7)
+    ctx.rule('C20.R10', 'no read loop on a hostile-input path can spin: a loop around read() leaves on the 0-byte (end of file) outcome', floor=1)
     ctx.rule('C20.R9', 'no allocation sized by a field of a value decoded from a file / frame without a bound test on that value', floor=1)
     for cfgname, F in ctx.F.items():
         r1(ctx, F)
@@ -42,6 +43,7 @@ def run(ctx):
         r6(ctx, F)
         r8(ctx, F)
     ctx.attempt(r9, ctx)
+    ctx.attempt(r10, ctx)
     entries = ['protocol::FrameHeader::decode', 'protocol::FrameHeader::read_from', 'protocol::Message::decode',
                'protocol::Codec::read_message', 'run_delta', 'run_patch']
     ctx.attempt(panics.run_entries, ctx, 'C20.R7', entries, 'no undischarged crate-local panic reachable from the decoders / copia delta|patch; asserting constructors get validated values')
@@ -63,6 +65,57 @@ def run(ctx):
                           '%s passes a value that was not validated to %s, which assert!s: a crafted input aborts the process' % (top, pf), term_loc(b, bb))
         if n < 4:
             ctx.missing('C20.R7', 'with_block_size call sites in the CLI crate (found %d, floor 4)' % n)
+
+
+# ---------------------------------------------------------------- R10
+READS = ('std::io::Read::read', 'tokio::io::AsyncReadExt::read', 'futures_util::AsyncReadExt::read')
+
+
+def r10(ctx):
+    """`copia delta|patch|signature` on hostile files must end: a loop that keeps calling read() until some counter derived from
+    untrusted lengths is satisfied never ends when the file is shorter than announced (read returns Ok(0) for ever) - every
+    such loop needs an exit on the zero-byte outcome (or read_exact, which fails at EOF)."""
+    n = 0
+    for cfgname, F in ctx.F.items():
+        cg = callgraph_of(F)
+        roots = [e for e in ('run_delta', 'run_patch', 'run_signature', 'async_sync::AsyncCopiaSync::patch', 'async_sync::AsyncCopiaSync::delta',
+                             'async_sync::AsyncCopiaSync::signature', '<sync::CopiaSync as sync::Sync>::patch', '<sync::CopiaSync as sync::Sync>::delta',
+                             'signature::Signature::generate', 'protocol::Codec::read_message') if F.body(e) is not None]
+        for p_ in sorted(cg.reach(roots)):
+            b = F.body(p_)
+            if b is None or 'generated' in b.file or '::tests' in p_:
+                continue
+            fl = flow_of(b)
+            cfg = fl.cfg
+            loops = cfg.loops()
+            if not loops:
+                continue
+            for rb, rt in fl.calls(lambda c: c in READS):
+                inside = [h for h, blocks in loops.items() if rb in blocks]
+                if not inside:
+                    continue
+                # the innermost loop around the read is the one that must give up at end of file (an outer loop is then
+                # entered with "nothing read" and is judged by its own logic)
+                inside = [min(inside, key=lambda h_: len(loops[h_]))]
+                n += 1
+                is_n = lambda os_: bool([o for o in os_ if o.kind != 'comb']) and all(o.kind == 'call' and o.bb == rb for o in os_ if o.kind != 'comb')
+                z_e, nz_e = zero_test_edges(fl, is_n)
+                ok = True
+                for h in inside:
+                    blocks = loops[h]
+                    leaves = False
+                    for (s_, t_, lab) in z_e:
+                        if s_ in blocks and (t_ not in blocks or h not in cfg.reach(t_)):
+                            leaves = True
+                    if not leaves:
+                        ok = False
+                key = '%s:read-loop-ends-at-eof:%s' % (p_.split('::{')[0].split('::')[-1], cfgname)
+                ctx.check(ok, 'C20.R10', key, 'the loop around read() has an exit on n == 0',
+                          'a loop in %s keeps calling read() with no exit on the 0-byte outcome: when the file is shorter than the lengths the untrusted input announces '
+                          '(a delta whose basis_size overstates the basis, a truncated file) read returns Ok(0) for ever and the command hangs instead of reporting an error'
+                          % p_.split('::{')[0], term_loc(b, rb))
+    if n == 0:
+        ctx.missing('C20.R10', 'read loops on the hostile-input paths (found 0)')
 
 
 # ---------------------------------------------------------------- R1
